@@ -141,3 +141,96 @@ Example C04_ex_nonvacuous :
   ExSim.quiet_line 10 [49;100;124;119]%N = false /\ ExSim.quiet_line 10 [117]%N = false /\ ExSim.quiet_line 10 [64;97]%N = false /\
   ExSim.nou_line 10 [49;100;124;119;124;49;100]%N = true /\ ExSim.nou_line 10 [117]%N = false.
 Proof. vm_compute. repeat split. Qed.
+
+(* ------------------------------------------------------------------------------------------ *)
+(* C04 OVER SEVERAL BUFFERS (proofs in ExUndoBufs.v; definitions in BufsDefs.v and UndoBufsDefs.v).
+   Model: the buffer table of ex.c (BufsDefs: bufs[16], bufs_switch WITH the bump of the buffer being left, bufs_open,
+   ec_edit incl. e # / e! / ew and the existing-path shortcut, ec_buffer (list, b N, b + - # ^ %, b !, b ~), next/prev,
+   ec_quit with its walk over the modified buffers, ec_write, ex_command over a `|` list with ONE closing
+   lbuf_modified(xb)) with the edit log of lbuf.c (UndoDefs.lbuf) as the payload of every slot; a command on the current
+   buffer is the list of lbuf calls it makes. *)
+From NV Require BufsDefs UndoBufsDefs ExUndoBufs.
+
+(* bufs_switch(idx), any payload: the buffer that is LEFT (slot 0) gets its command counter bumped exactly once
+   (lbuf_modified once) and every other buffer -- the one entered, the ones the rotation moves down, the ones behind idx --
+   keeps its line buffer as it is, WHATEVER slot the rotation puts it in (dest: idx -> 0, j < idx -> j + 1, j > idx -> j;
+   injective, so no two buffers share a slot afterwards) *)
+Theorem C04_bufs_switch_bumps_the_buffer_left :
+  forall (L Op Out : Type) (Lo : BufsDefs.lops L Op Out) (s : BufsDefs.st L) (idx j : nat) (b bi : BufsDefs.buf L),
+  nth_error (BufsDefs.bufs s) idx = Some (Some bi) -> nth_error (BufsDefs.bufs s) j = Some (Some b) ->
+  exists b', nth_error (BufsDefs.bufs (BufsDefs.bufs_switch Lo s idx)) (ExUndoBufs.dest idx j) = Some (Some b') /\
+             BufsDefs.b_id b' = BufsDefs.b_id b /\ BufsDefs.b_path b' = BufsDefs.b_path b /\
+             BufsDefs.b_lb b' = (if Nat.eqb j 0 then fst (BufsDefs.lb_modified Lo (BufsDefs.b_lb b)) else BufsDefs.b_lb b).
+Proof. exact (@ExUndoBufs.switch_bumps_left). Qed.
+Print Assumptions C04_bufs_switch_bumps_the_buffer_left.
+
+Theorem C04_bufs_switch_slots_distinct : forall idx j k : nat, ExUndoBufs.dest idx j = ExUndoBufs.dest idx k -> j = k.
+Proof. exact ExUndoBufs.dest_inj. Qed.
+Print Assumptions C04_bufs_switch_slots_distinct.
+
+(* after ANY script of command lines from the initial state of `vi -s -e files` (every line an arbitrary list of commands:
+   edits, u, redo, switches in the middle of the line, listings, refused quits, writes ...) EVERY buffer of the table, in
+   whatever slot it sits, is at an undo-step boundary: its edit log refines an undo stack (UndoProps.R, the relation of
+   C04_refines) all of whose keys are strictly below the buffer's command counter -- every buffer that a command line
+   left, and the one it ended in, had its step closed *)
+Theorem C04_bufs_every_buffer_is_closed_after_every_line :
+  forall files argv (ls : list (list UndoBufsDefs.ucmd)) (j : nat) (b : UndoBufsDefs.ubuf),
+  nth_error (BufsDefs.bufs (UndoBufsDefs.u_lines (fst (UndoBufsDefs.u_init files argv)) ls)) j = Some (Some b) ->
+  exists sp, UndoProps.R (BufsDefs.b_lb b) sp /\ ExUndo.keys_lt sp.
+Proof. exact ExUndoBufs.script_closes_every_buffer. Qed.
+Print Assumptions C04_bufs_every_buffer_is_closed_after_every_line.
+
+(* edit calls on a buffer at a step boundary, then ONE bump (the bump of bufs_switch when the buffer is left, or the
+   closing bump of ex_command): the buffer is at a boundary again, and if the text changed, lbuf_undo succeeds and gives
+   back exactly the text from before the edit calls *)
+Theorem C04_bufs_edits_then_one_bump_are_one_step : forall (l : lbuf) (es : list (option (list N) * nat * nat)) (sp : ustack),
+  UndoProps.R l sp -> ExUndo.keys_lt sp ->
+  let l1 := run_ops l (map UndoProps.mk_edit es ++ [Bump]) in
+  (exists sp1, UndoProps.R l1 sp1 /\ ExUndo.keys_lt sp1) /\
+  (ln l1 <> ln l -> exists l2, lbuf_undo l1 = Some l2 /\ ln l2 = ln l).
+Proof. exact ExUndoBufs.closed_edits_one_step'. Qed.
+Print Assumptions C04_bufs_edits_then_one_bump_are_one_step.
+
+(* the multi-buffer version of C04_ex_command_is_one_step: after ANY script, a command line that enters a buffer in any
+   way (cs1: any list of commands that are not operations on the text -- e name, e! name, e #, ew, b N, b + - # ^, next,
+   prev, b, q, w, se wa ...; possibly empty) and then edits it (any number of edit calls), followed by the line `u`:
+   the current buffer is still that buffer, its text is exactly the text it had when it was entered, and the undo reports
+   success -- whichever slot of bufs[] the buffer came from and whichever buffers the earlier lines left in mid-line *)
+Theorem C04_bufs_command_is_one_step :
+  forall files argv (pre : list (list UndoBufsDefs.ucmd)) (cs1 : list UndoBufsDefs.ucmd)
+         (es : list (option (list N) * nat * nat)) (v v' : BufsDefs.view) (b : UndoBufsDefs.ubuf),
+  let s := UndoBufsDefs.u_lines (fst (UndoBufsDefs.u_init files argv)) pre in
+  Forall (fun c => UndoBufsDefs.is_op c = false) cs1 ->
+  BufsDefs.slot0 (fst (UndoBufsDefs.u_exec_all s cs1)) = Some b ->
+  let s1 := fst (UndoBufsDefs.u_line s (cs1 ++ [UndoBufsDefs.edits_cmd es v])) in
+  let s2 := fst (UndoBufsDefs.u_line s1 [UndoBufsDefs.undo_cmd v']) in
+  UndoBufsDefs.cur_text s1 <> Some (ln (BufsDefs.b_lb b)) ->
+  UndoBufsDefs.cur_text s2 = Some (ln (BufsDefs.b_lb b)) /\
+  UndoBufsDefs.cur_id_of s2 = BufsDefs.b_id b /\ UndoBufsDefs.cur_id_of s1 = BufsDefs.b_id b /\
+  exists b1, BufsDefs.slot0 s1 = Some b1 /\ snd (run_op (BufsDefs.b_lb b1) Undo) = true.
+Proof. exact ExUndoBufs.bufs_command_is_one_step. Qed.
+Print Assumptions C04_bufs_command_is_one_step.
+
+(* not vacuous: files fa (a1..a4), fb (b1 b2), fc (c1..c4); `e fb`, `e fc`, `1d|e! fa` (fa sits in bufs[2]: the buffer
+   entered is not the alternate one), `e! fc|1d`, `u`: only the second deletion is undone (c2 c3 c4), fc is current, and
+   another `u` brings c1 back; the hypotheses of C04_bufs_command_is_one_step hold for the fourth line *)
+Example C04_bufs_nonvacuous :
+  let ch := fun (c : N) (k : N) => [c; (48 + k)%N] in
+  let fa := [102; 97]%N in let fb := [102; 98]%N in let fc := [102; 99]%N in
+  let files := [(fa, [ch 97 1; ch 97 2; ch 97 3; ch 97 4]); (fb, [ch 98 1; ch 98 2]); (fc, [ch 99 1; ch 99 2; ch 99 3; ch 99 4])]%N in
+  let v := BufsDefs.view0 in
+  let e := fun bang p => BufsDefs.CEdit bang false (BufsDefs.PLit p) in
+  let d1 := UndoBufsDefs.edits_cmd [(None, 0, 1)] v in
+  let s0 := fst (UndoBufsDefs.u_init files [fa]) in
+  let pre := [[e false fb]; [e false fc]; [d1; e true fa]] in
+  let s := UndoBufsDefs.u_lines s0 pre in
+  let s1 := fst (UndoBufsDefs.u_line s [e true fc; d1]) in
+  let s2 := fst (UndoBufsDefs.u_line s1 [UndoBufsDefs.undo_cmd v]) in
+  let s3 := fst (UndoBufsDefs.u_line s2 [UndoBufsDefs.undo_cmd v]) in
+  let nl := fun l => l ++ [NL] in
+  option_map (fun b => ln (BufsDefs.b_lb b)) (BufsDefs.slot0 (fst (UndoBufsDefs.u_exec_all s [e true fc]))) = Some (map nl [ch 99 2; ch 99 3; ch 99 4])%N /\
+  UndoBufsDefs.cur_text s1 = Some (map nl [ch 99 3; ch 99 4])%N /\
+  UndoBufsDefs.cur_text s2 = Some (map nl [ch 99 2; ch 99 3; ch 99 4])%N /\
+  UndoBufsDefs.cur_text s3 = Some (map nl [ch 99 1; ch 99 2; ch 99 3; ch 99 4])%N /\
+  UndoBufsDefs.cur_id_of s2 = 3%Z /\ ExUndoBufs.dest 2 0 = 1.
+Proof. vm_compute. repeat split. Qed.
